@@ -233,7 +233,7 @@ func (ctrl *QController[Input, Output]) Reconcile(ctx context.Context, logger *z
 }
 
 func (ctrl *QController[Input, Output]) reconcileRunning(ctx context.Context, logger *zap.Logger, r controller.QRuntime, in Input, mappedOut Output) error {
-	if !in.Metadata().Finalizers().Has(ctrl.Name()) && in.Metadata().Phase() == resource.PhaseRunning {
+	if !in.Metadata().Finalizers().Has(ctrl.Name()) {
 		if err := r.AddFinalizer(ctx, in.Metadata(), ctrl.Name()); err != nil {
 			return fmt.Errorf("error adding input finalizer: %w", err)
 		}
